@@ -487,9 +487,7 @@ impl DbIndex {
     //@@ DbIndex::get_module_index
     //@@ DbIndex::get_vfs
     //@@ DbIndex::get_global_index
-    /// `&self.emmyrc` with `emmyrc: Arc<Emmyrc>` (deref coercion `&Arc<Emmyrc>` -> `&Emmyrc`): no contract needed
-    #[verifier::external_body]
-    pub fn get_emmyrc(&self) -> (r: &Emmyrc) { unimplemented!() }
+    //@@ DbIndex::get_emmyrc
 }
 impl LuaTypeIndex {
     //@@ LuaTypeIndex::get_all_types
